@@ -176,7 +176,7 @@ def _pre_axioms(oriented):
     ]
 
 
-def _c(st):
+def _cmap(st):
     return st.env["__C"]
 
 
@@ -185,27 +185,27 @@ def _upd(st, oid, val):
 
 
 def _m_orient(ex, st, args, kw, node):
-    _upd(st, args[0].id, ORIENT(z3.Select(_c(st), args[0].id), real_(args[1])))
+    _upd(st, args[0].id, ORIENT(z3.Select(_cmap(st), args[0].id), real_(args[1])))
     return NONE
 
 
 def _m_butter(ex, st, args, kw, node):
     lo, hi = args[1]
-    _upd(st, args[0].id, BUTTER(z3.Select(_c(st), args[0].id), real_(lo), real_(hi)))
+    _upd(st, args[0].id, BUTTER(z3.Select(_cmap(st), args[0].id), real_(lo), real_(hi)))
     return NONE
 
 
 def _m_split3(ex, st, args, kw, node):
     rec, L_ = args[0], real_(args[1])
-    c = z3.Select(_c(st), rec.id)
+    c = z3.Select(_cmap(st), rec.id)
     j, w = z3.Int("j!sp"), z3.Int("w!sp")
     st.env["__C"] = z3.Lambda([w], z3.If(z3.And(WREC(w) == rec.id, WPOS(w) >= 0, WPOS(w) < NW3(c, L_), w == W3(rec.id, WPOS(w))),
-                                         WINDOWC(c, L_, WPOS(w)), z3.Select(_c(st), w)))
+                                         WINDOWC(c, L_, WPOS(w)), z3.Select(_cmap(st), w)))
     return new_symlist(ex, st, "SeismicRecording3C", length=NW3(c, L_), arr=z3.Lambda([j], W3(rec.id, j)), owner="fresh", name="windows")
 
 
 def _m_detrend(ex, st, args, kw, node):
-    _upd(st, args[0].id, DETREND(z3.Select(_c(st), args[0].id)))
+    _upd(st, args[0].id, DETREND(z3.Select(_cmap(st), args[0].id)))
     return NONE
 
 
